@@ -50,3 +50,51 @@ def client_program(rng, nthreads, nops, cells=2, slots=3, maxheld=None, guard_op
             else: ops.append('read %d' % c)
         prog.append(ops)
     return prog
+
+# ---------------------------------------------------------------------------------------------------------------
+# step-level reclaimer models (Model/EbrDefs.v, Model/HpDefs.v) and their trace correspondence (C01, C02)
+# ---------------------------------------------------------------------------------------------------------------
+MODEL_HARNESSES = [('ebr', (), False, ''), ('hp', ('XV_RECL=HPs<3>',), False, '')]
+
+def model_program(rng, with_exit):
+    nth = rng.choice([2, 3, 3]); ncells = rng.choice([1, 2, 2]); nslots = rng.choice([1, 2, 3])
+    prog = []
+    for _ in range(nth):
+        ops = []
+        for _ in range(rng.randint(1, 6)):
+            k = rng.random(); c = rng.randrange(ncells); s = rng.randrange(nslots)
+            if k < 0.3: ops.append('repl %d' % c)
+            elif k < 0.38: ops.append('clear %d' % c)
+            elif k < 0.65: ops.append('read %d' % c)
+            elif k < 0.82: ops.append('hold %d %d' % (c, s))
+            elif k < 0.92: ops.append('drop %d' % s)
+            else: ops.append('deref %d' % s)
+        if with_exit: ops.append('exit')
+        prog.append(ops)
+    return ({'cells': str(ncells), 'slots': str(nslots), 'flushes': '12'}, prog)
+
+EBR_FIXED = [
+    ({'cells': '2', 'slots': '3', 'flushes': '8'}, [['repl 0', 'repl 0', 'read 1', 'repl 1'], ['hold 0 1', 'read 0', 'deref 1', 'drop 1', 'repl 0']]),
+    ({'cells': '2', 'slots': '3', 'flushes': '12'}, [['repl 0'], ['repl 1'], ['read 0'] * 8, ['read 1'] * 8]),
+    ({'cells': '2', 'slots': '3', 'flushes': '8'}, [['read 0'], ['read 0', 'read 1'], ['read 0', 'read 1']]),
+]
+HP_FIXED = [
+    ({'cells': '2', 'slots': '3', 'flushes': '2'}, [['hold 0 0', 'hold 1 1', 'hold 0 2', 'read 0', 'repl 1', 'drop 1', 'repl 1', 'exit'], ['repl 0', 'repl 1', 'exit'], ['repl 1', 'clear 0', 'clear 0', 'exit']]),
+    ({'cells': '2', 'slots': '3', 'flushes': '2'}, [['hold 0 0', 'deref 0', 'deref 0', 'exit'], ['repl 0', 'repl 0', 'exit']]),
+]
+
+def model_ties(ctx, do_correspondence, tie_broken_sig):
+    """trace correspondence of the EBR and HP models; returns the first broken tie or None"""
+    rng, thorough, Hs = ctx['rng'], ctx['tier'] == 'thorough', ctx['H']
+    tie = None
+    k = 10 if thorough else 5
+    if 'ebr' in Hs:
+        cases = EBR_FIXED + [model_program(rng, False) for _ in range(k)]
+        st = do_correspondence(ctx, 'ebr', Hs.pop('ebr'), cases, 8 if thorough else 4, 'epoch_based')
+        tie = tie or tie_broken_sig(st, 'ebr')
+    if 'hp' in Hs:
+        cases = HP_FIXED + [model_program(rng, True) for _ in range(k)]
+        for cfg, prog in cases: cfg['flushes'] = '2'
+        st = do_correspondence(ctx, 'hp', Hs.pop('hp'), cases, 8 if thorough else 4, 'hazard_pointer')
+        tie = tie or tie_broken_sig(st, 'hp')
+    return tie
